@@ -88,7 +88,9 @@ class SqlParseLineageAnalyzer(LineageAnalyzer):
                 tables.append(SqlParseTable.of(t))
             elif isinstance(t, IdentifierList):
                 for identifier in t.get_identifiers():
-                    tables.append(SqlParseTable.of(identifier))
+                    # malformed lists (`a to b, to a`) contain bare keyword tokens
+                    if isinstance(identifier, Identifier):
+                        tables.append(SqlParseTable.of(identifier))
         keywords = [t for t in stmt.tokens if t.is_keyword]
         if any(k.normalized == "RENAME" for k in keywords):
             if stmt.get_type() == "ALTER" and len(tables) == 2:
